@@ -58,8 +58,8 @@ func (p *pStorePlan) wedgeAt(kind string, nth int) (entered <-chan struct{}, rel
 type pStores struct {
 	run      *pRun
 	plan     *pStorePlan
-	data     *memDataStore
-	meta     *bs.MemoryMetaStore
+	data     bs.DataStore
+	meta     bs.MetaStore
 	hasAbort bool
 }
 
